@@ -44,7 +44,7 @@ OFFSETS = ["zero", "zero", "ulp", "ulp", "log", "log", "log", "subnormal", "far"
 
 
 def budget(tier):
-    return {"examples": 8000 if tier == "quick" else 300000}
+    return {"examples": 8000 if tier == "quick" else 300000, "fuzz_runs": 0 if tier == "quick" else 60000}
 
 
 @st.composite
